@@ -249,14 +249,30 @@ def rule_send_guard(ctx):
             ctx.ob(R, fi, t, ok, "not being in a transaction does not raise IllegalOperation", text="raises")
             nos, w = ctx.no_suspension_between(fi, t, sk)
             ctx.ob(R, fi, sk, nos, f"suspension {w!r} between the in-transaction test and {sink}()", text="atomic")
-            # for transactional producers the test is on every path to the sink
-            tid = [x for x in c.nodes if x.kind == "test" and is_none_test(x.ast, negate=True) is not None and unparse(is_none_test(x.ast, negate=True)).endswith("transactional_id")]
-            ok2 = bool(tid) and all(sk not in c.reachable([m for m, l in x.succ if l == "T"], avoid=[t], include_src=True) for x in tid)
-            # ... and the transactional_id test itself is skipped only when there is no transaction manager at all
-            outer = [x for x in c.nodes if x.kind == "test" and is_none_test(x.ast, negate=True) is not None and unparse(is_none_test(x.ast, negate=True)) == "self._txn_manager"]
-            ok2 = ok2 and (any(c.dominates(x, sk) for x in tid) or
-                           (bool(outer) and all(sk not in c.reachable([m for m, l in x.succ if l == "T"], avoid=set(tid), include_src=True) for x in outer)
-                            and any(c.dominates(x, sk) for x in outer)))
+            # for transactional producers the test is on every path to the sink: walk from the entry, never taking an edge that
+            # means "no transaction manager" / "no transactional id", never passing the in-transaction test: the sink must be unreachable
+            from ..rulekit import none_tests
+            from .c19 import aliases
+            subjects = set()
+            for x in c.nodes:
+                if x.kind == "test":
+                    for a_ in (is_none_test(x.ast), is_none_test(x.ast, negate=True)):
+                        if a_ is not None:
+                            tx = unparse(a_)
+                            if tx.endswith("transactional_id") or tx.endswith("_txn_manager") or tx in aliases(fi, "self._txn_manager"):
+                                subjects.add(tx)
+            skip = set()
+            for sb in subjects:
+                for tn, lab_none, _lab_some in none_tests(c, sb):
+                    skip.add((tn, lab_none))
+            seen_, stack_ = set(), [c.entry]
+            while stack_:
+                n_ = stack_.pop()
+                if n_ in seen_ or n_ is t:
+                    continue
+                seen_.add(n_)
+                stack_ += [m_ for m_, l_ in n_.succ if (n_, l_) not in skip]
+            ok2 = bool(subjects) and sk not in seen_
             ctx.ob(R, fi, sk, ok2, "a transactional producer can reach the accumulator without the test", text="on-every-path")
     fb = ctx.fn(f"{ACC}.create_builder")
     cb = ctx.cfg(fb)
